@@ -144,7 +144,7 @@ Definition num_lower (r : vrange) : res (value * bool) :=
   else match rty r with
        | TNum => match rraw r with
                  | RNum _ (Some b) _ inc _ => Ok (v_of_numv b, inc)
-                 | _ => Ok (v_ninf, false)
+                 | _ => Ok (v_ninf, true)
                  end
        | _ => Panic
        end.
@@ -153,7 +153,7 @@ Definition num_upper (r : vrange) : res (value * bool) :=
   else match rty r with
        | TNum => match rraw r with
                  | RNum _ _ (Some b) _ inc => Ok (v_of_numv b, inc)
-                 | _ => Ok (v_pinf, false)
+                 | _ => Ok (v_pinf, true)
                  end
        | _ => Panic
        end.
